@@ -67,6 +67,10 @@ func runC15(c *Ctx) {
 	c15AddBackend(c)
 	c15Termination(c)
 	c15Wiring(c)
+	// the method the transaction key and the BYE/INVITE tests rest on comes from the CSeq header (rule shared with C14/C17)
+	ruleTokenSplitting(c, "termination", "ParseCSeq")
+	// a pin is only honoured if the response that establishes it is attributed to its backend: one spelling of a backend's address (shared with C19/C04)
+	c19Addresses(c, "max-lifetime")
 }
 
 func c15Polarity(c *Ctx) {
